@@ -36,7 +36,7 @@ def run(payload):
     eps = 1e-9
 
     def fail(kind, **kw):
-        if len(fails) < 5:
+        if sum(1 for f_ in fails if f_["id"] == kind) < 3:  # a few witnesses per kind; one kind never crowds out another
             fails.append({"id": kind, **kw})
 
     for _ in range(n):
@@ -130,7 +130,7 @@ def run(payload):
     cases += 1
     if any(abs(((a - 1.0) / 2.0) - round((a - 1.0) / 2.0)) > 1e-9 for a in answers):
         extra = {"id": "constant_run_starting_after_t_start_leaves_the_lattice", "schedule": "ConstantInterrupts(dt=2, t_start=1)", "first_query": 4.0, "answers": answers, "lattice": "1 + 2k"}
-        fails.append(extra) if len(fails) < 8 else None
+        fails.append(extra)
     li = LogarithmicInterrupts(dt_initial=1.0, factor=2.0)
     answers = [li.initialize(0.0)]
     for t in (10.0, 10.0, 10.0, 10.0):
@@ -138,7 +138,7 @@ def run(payload):
     gaps = [b - a for a, b in zip(answers, answers[1:])]
     cases += 1
     if any(g2 < g1 - 1e-12 for g1, g2 in zip(gaps, gaps[1:])):
-        fails.append({"id": "logarithmic_gaps_shrink_after_skipped_interrupts", "schedule": "LogarithmicInterrupts(dt_initial=1, factor=2)", "queries": [0, 10, 10, 10, 10], "answers": answers, "gaps": gaps}) if len(fails) < 8 else None
+        fails.append({"id": "logarithmic_gaps_shrink_after_skipped_interrupts", "schedule": "LogarithmicInterrupts(dt_initial=1, factor=2)", "queries": [0, 10, 10, 10, 10], "answers": answers, "gaps": gaps})
     return {"ok": True, "cases": cases, "failures": fails}
 
 
